@@ -39,6 +39,7 @@ import Pumpkin.Model.Branching
 import Pumpkin.Model.Drcp
 import Pumpkin.Model.Dimacs
 import Pumpkin.Model.ImplicitReason
+import Pumpkin.Model.Lits
 import Pumpkin.Check.Rup
 import Pumpkin.Check.MaxSat
 import Pumpkin.Check.DrcpCheck
@@ -440,6 +441,29 @@ def respond (st : St) (line : String) : St × Option String :=
            | .panicked => "err panicked"
        if model == impl then (st, some s!"ok wcnf {(model.splitOn " ").take 2}")
        else (st, some s!"FAIL wcnf model=[{model}] impl=[{impl}]"))
+  | "litsfile" :: n :: rest =>
+    -- `litsfile <n> b1 … bn :: <result of the real LiteralDefinitions::parse>`: exact correspondence
+    -- with Model/Lits (the map keeps the last definition of a code; reported in code order)
+    (match n.toNat? with
+     | none => (st, some "FAIL litsfile unparsed")
+     | some k =>
+       let bytes := (rest.take k).filterMap String.toNat?
+       let impl := " ".intercalate (rest.drop (k + 1))
+       if bytes.length != k || (rest.drop k).head? != some "::" then (st, some "FAIL litsfile unparsed") else
+       let name := fun (bs : List Nat) => String.ofList (bs.map Char.ofNat)
+       let model := match Pumpkin.Lits.parseFile bytes with
+         | none => "err"
+         | some defs =>
+           -- last definition per code wins, then sort by code
+           let dedup := defs.foldl (fun acc d => (acc.filter (fun e => e.1 != d.1)) ++ [d]) ([] : List (Nat × List Pumpkin.Lits.Atomic))
+           let sorted := dedup.mergeSort (fun a b => a.1 ≤ b.1)
+           sorted.foldl (fun acc d =>
+             acc ++ s!" {d.1} {d.2.length}" ++ d.2.foldl (fun a at_ =>
+               a ++ (match at_ with
+                 | .int nm c v => s!" i {name nm} " ++ (match c with | .ge => "ge" | .le => "le" | .eq => "eq" | .ne => "ne") ++ s!" {v}"
+                 | .bool nm v => s!" b {name nm} {v}")) "") "ok"
+       if model == impl then (st, some s!"ok litsfile {(model.splitOn " ").take 1}")
+       else (st, some s!"FAIL litsfile model=[{model}] impl=[{impl}]"))
   | "implicit" :: rest =>
     -- `implicit <trail atom> <queried atom> <n> <reason atoms>`: exact correspondence with
     -- Model/ImplicitReason (the reason the real conflict analysis derived for a predicate that is
